@@ -79,12 +79,23 @@ Leaves == {[kind |-> "add", item |-> i, t |-> N0, k |-> N0, chain |-> c] : i \in
 \* consecutive leaves describe one tree: nesting only changes by entering / leaving modules at the boundary
 Modules == Mode = "modules" /\ Len(hist) = 0 /\ \E n \in 1..MaxOps : \E ls \in [1..n -> Leaves] :
           Do([ev |-> "modules", leaves |-> ls], [op |-> "modules", leaves |-> ls])
-BuildAfterModules == Mode = "modules" /\ Len(hist) = 1 /\ Do([ev |-> "built"], [op |-> "build"])
+\* the SAME module values applied to the same collection a second time (after a failure, possibly after the conflict
+\* was removed by hand): a module keeps no memory of earlier applications - it is again its direct calls
+NModules == Cardinality({i \in DOMAIN hist : hist[i].op = "modules"})
+ModulesAgain == Mode = "modules" /\ Len(hist) \in 1..2 /\ NModules = 1 /\ LastOp # "build" /\ Len(hist[1].leaves) <= 2
+          /\ Do([ev |-> "modules", leaves |-> hist[1].leaves], [op |-> "modulesagain", leaves |-> hist[1].leaves])
+EditBetween == Mode = "modules" /\ Len(hist) = 1 /\ Len(hist[1].leaves) <= 2 /\
+          \/ Do([ev |-> "remove", t |-> "S0"], [op |-> "remove", t |-> "S0"])
+          \/ Do([ev |-> "removekeyed", t |-> "S0", k |-> "k"], [op |-> "removekeyed", t |-> "S0", k |-> "k"])
+BuildAfterModules == Mode = "modules" /\ Len(hist) >= 1 /\ LastOp \in {"modules", "modulesagain"}
+          /\ Do([ev |-> "built"], [op |-> "build"])
 
-Next == Add \/ Remove \/ RemoveKeyed \/ Build \/ Modules \/ BuildAfterModules
+Next == Add \/ Remove \/ RemoveKeyed \/ Build \/ Modules \/ ModulesAgain \/ EditBetween \/ BuildAfterModules
 Spec == Init /\ [][Next]_vars
 
-View == <<rs.live, rs.snaps, Len(hist)>>
+\* in module mode the follow-up steps depend on the tree that was applied (and on whether it failed), not only on
+\* what it left behind: every history is kept
+View == IF Mode = "modules" THEN <<rs.live, rs.snaps, hist>> ELSE <<rs.live, rs.snaps, Len(hist)>>
 Emit == IF EmitOn THEN PrintT(<<"SCN", ToJson([items |-> Items, ops |-> hist'])>>) ELSE TRUE
 
 \* ---- design properties -------------------------------------------------------------------------
@@ -106,6 +117,6 @@ Direct(live, ls, i) == IF i > Len(ls) THEN live
                                           ELSE IF ls[i].kind = "rm" THEN [ev |-> "remove", t |-> ls[i].t]
                                           ELSE IF ls[i].kind = "rmk" THEN [ev |-> "removekeyed", t |-> ls[i].t, k |-> ls[i].k]
                                           ELSE [ev |-> "noop"]).live, ls, i + 1)
-ModulesTransparent == [][(hist' # hist /\ hist'[Len(hist')].op = "modules") =>
+ModulesTransparent == [][(hist' # hist /\ hist'[Len(hist')].op \in {"modules", "modulesagain"}) =>
                           rs'.live = Direct(rs.live, hist'[Len(hist')].leaves, 1)]_vars
 =============================================================================
